@@ -41,14 +41,18 @@ func drawPlan(t *rapid.T, sampleBytes int) (string, []int) {
 			p[i] = rapid.IntRange(1, sampleBytes+7).Draw(t, "chunk")
 		}
 		return kind, p
-	case "pow2-remainder": // first a read that leaves n - j*2^p - r bytes filled (r < 600): what remains is "a few buffers plus a small tail"; then full reads
-		p := rapid.SampledFrom([]int{9, 12, 13, 15, 16, 16}).Draw(t, "p") // 512 B sectors, 4/8 KiB pages, 32/64 KiB copy and pipe buffers
-		j := rapid.IntRange(1, max(1, sampleBytes>>uint(p))).Draw(t, "j")
-		first := sampleBytes - j<<uint(p) - rapid.IntRange(0, 600).Draw(t, "r")
-		if first < 1 {
-			first = 1 + rapid.IntRange(0, 600).Draw(t, "r2")
+	case "pow2-remainder": // per sample: first a read that leaves j*2^p + r bytes missing (r < 600: "a few buffers plus a small tail"), then the rest
+		var plan []int
+		for k := 0; k < 24; k++ { // a different split for (almost) every sample of the stream
+			p := rapid.SampledFrom([]int{9, 12, 13, 15, 16, 16}).Draw(t, "p") // 512 B sectors, 4/8 KiB pages, 32/64 KiB copy and pipe buffers
+			j := rapid.IntRange(1, max(1, sampleBytes>>uint(p))).Draw(t, "j")
+			first := sampleBytes - j<<uint(p) - rapid.IntRange(0, 600).Draw(t, "r")
+			if first < 1 {
+				first = 1 + rapid.IntRange(0, 600).Draw(t, "r2")
+			}
+			plan = append(plan, first, 1<<30)
 		}
-		return kind, []int{first, 1 << 30}
+		return kind, plan
 	case "straddle": // chunks of sampleBytes-1 / sampleBytes+1: every read boundary drifts across the sample boundary
 		return kind, []int{sampleBytes + rapid.SampledFrom([]int{-1, 1, -7, 13}).Draw(t, "drift")}
 	default: // full reads except one short read per cycle
